@@ -12,6 +12,10 @@ R14c injected interrupts are advanced only by tick_iterate_subticks, called from
      which Engine.tick reaches only under started and not paused/holding/stopping.
 Decides where injected code lives relative to what an edit preserves; exactly-once execution of
 arbitrary snippets is not decided.
+R14d one injection per request: PInterpreter.inject_node and MethodManager.parse_inject_code are called only from the
+     engine's inject entry point (Engine.inject_code / _inject_code), once per call and not inside a loop - injecting a
+     snippet a second time (for instance "again after a merge, because its node is not completed yet") re-parses it
+     from source, so nothing of its progress is kept and its instructions run twice.
 """
 from __future__ import annotations
 
@@ -127,3 +131,49 @@ def run(ctx) -> None:
     else:
         ctx.fail("R14c", et, itn[0].ast, "Engine.tick runs the interpreter only when started and not paused/holding/stopping",
                  f"guard lacks {sorted(need - facts)}")
+
+    # ---- R14d
+    ctx.rule("R14d", "injected code is parsed and injected exactly once per request")
+    from ..model import parent_map
+    allowed_top = "openpectus.engine.engine_message_handlers"
+    targets = [prog.func("openpectus.lang.exec.pinterpreter:PInterpreter.inject_node"),
+               prog.func("openpectus.engine.method_manager:MethodManager.parse_inject_code")]
+    seen_t = set()
+    n_sites = 0
+    while targets:
+        tgt = targets.pop()
+        if tgt.qualname in seen_t:
+            continue
+        seen_t.add(tgt.qualname)
+        sites = []
+        for fn in prog.iter_functions():
+            for c in walk_no_nested(fn.node):
+                if isinstance(c, ast.Call) and call_attr(c) == tgt.name:
+                    res_ = ctx.res.resolve_call(c, fn, cha=False)
+                    if any(r is tgt for r in res_) or (not res_ and tgt.name.startswith(("inject", "_inject", "parse_inject"))):
+                        sites.append((fn, c))
+        n_sites += len(sites)
+        callers = {f_.qualname for f_, _ in sites}
+        for fn, c in sites:
+            inst = f"{fn.short}: {norm(c.func)}(...)"
+            pm_ = parent_map(fn.node)
+            cur, in_loop = pm_.get(id(c)), False
+            while cur is not None:
+                if isinstance(cur, (ast.For, ast.While, ast.AsyncFor, ast.ListComp, ast.GeneratorExp)):
+                    in_loop = True
+                cur = pm_.get(id(cur))
+            if in_loop:
+                ctx.fail("R14d", fn, c, inst, f"{tgt.short} is called inside a loop: injected code is (re-)injected more than once per "
+                         "request - a snippet injected again (e.g. after a live edit because its node is not completed yet) is "
+                         "re-parsed from source, keeps none of its progress and runs twice")
+            elif len(callers) > 1 and fn.module.name != allowed_top:
+                ctx.fail("R14d", fn, c, inst, f"{tgt.short} is called from {sorted(x.split(':')[-1] for x in callers)}: code can be injected "
+                         "by a path other than the user's request, i.e. a second time")
+            else:
+                ctx.ok("R14d", inst)
+        if len(callers) == 1:
+            only = sites[0][0]
+            if only.module.name != allowed_top:
+                targets.append(only)
+    if n_sites < 3:
+        raise AnchorError(f"only {n_sites} call sites on the inject chain found (floor 3)")
